@@ -317,6 +317,7 @@ def main():
     if a.replay:
         rp, o = native(json.load(open(a.replay))['case']); print(o); sys.exit(1 if rp else 0)
     rep = R.Report('C19', a.tier, seed); timeout = solve.TIMEOUT_MS[a.tier]
+    R.prefetch_native('props.c19_native', ['bounded', str(seed), a.tier])      # the stand-in runs while the obligations are discharged
     u = Under(); q = a.tier == 'quick'
     for m, names in ((MO, ['moving_sum', 'moving_mean', 'moving_var', 'moving_std', 'moving_skew', 'moving_kurtosis', '_moving_argument_check']), (PD, ['correlation', 'distance', 'bcdc', '_check_and_cast_args']),
                      (PK, ['find_peaks', '_find_peaks_numba_core', 'find_width', '_check_find_width_args', 'extract_around_indexes', '_check_data']), (BS, ['pad', 'cast_array'])):
